@@ -41,59 +41,96 @@ theorem lnd_tell_not_pending (env : Env α) {s s' : State α} (p : Pt) (vmin vma
     (h : tell env s p vmin vmax = .ok s') : p ∈ s'.data ∧ p ∉ s'.pending :=
   tell_new_not_pending env p vmin vmax hn h
 
-/-- A.2 as an invariant.  `data` and `pending_points` are disjoint in every state reached by a history in which no
-operation marks a point pending that has a value at that moment (`NoRemark`: no `tell_pending(p)` for a known `p`,
-no committing `ask` that returns a known point). -/
-theorem lnd_data_pending_disjoint (env : Env α) (ops : List (Op α)) (hn : NoRemark env (init env) ops)
+/-- A.2 as an invariant — UNCONDITIONAL since the repair `fix: LearnerND.tell_pending marked an already evaluated
+point as pending`.  `data` and `pending_points` are disjoint in every state reached by ANY history: `tell_pending`
+ignores a point that has a value, and `ask` marks the points it hands out through the same function, so neither an
+explicit `tell_pending(p)` nor a committing `ask` that returns a known point (the random bootstrap point, the point
+chosen in a simplex — the missing corners are unknown by construction) marks a known point.  (Before the repair the
+invariant needed the hypothesis `NoRemark` — "no operation marks a point pending that has a value at that moment" —
+and was false without it; the two former counterexamples are the positive `example`s below.) -/
+theorem lnd_data_pending_disjoint (env : Env α) (ops : List (Op α))
     {s : State α} (h : run env (init env) ops = .ok s) : ∀ p ∈ s.data, p ∉ s.pending :=
-  run_disjoint env ops hn (fun p hp => absurd hp (by simp [init])) h
+  run_disjoint env ops (fun p hp => absurd hp (by simp [init])) h
 
-/-- A.2, the step behind it: a point that has a value and is not pending stays so under every operation that does
-not mark it. -/
+/-- A.2 from any start state: every operation — and so every history — keeps `data` and `pending_points` disjoint. -/
+theorem lnd_disjoint_preserved (env : Env α) (ops : List (Op α)) {s s' : State α}
+    (hd : ∀ p ∈ s.data, p ∉ s.pending) (h : run env s ops = .ok s') : ∀ p ∈ s'.data, p ∉ s'.pending :=
+  run_disjoint env ops hd h
+
+/-- A.2, the step behind it: a point that has a value and is not pending stays so under EVERY operation (before the
+repair: under every operation that does not mark it). -/
 theorem lnd_told_stays_not_pending (env : Env α) {s s' : State α} {p : Pt} (op : Op α) (hd : p ∈ s.data)
-    (hp : p ∉ s.pending) (hm : ¬ Marks env s p op) (h : step env s op = .ok s') :
+    (hp : p ∉ s.pending) (h : step env s op = .ok s') :
     p ∈ s'.data ∧ p ∉ s'.pending :=
-  ⟨mem_data_step env op hd h, step_told_not_pending env op hp hm h⟩
+  ⟨mem_data_step env op hd h, step_told_not_pending env op hd hp h⟩
 
-/-- A.2 is NOT an unconditional invariant, and these are exactly the histories that break it: an operation that
-marks an in-domain point pending (`tell_pending(p)`, or a committing `ask` returning `p`) makes it pending even if it
-has a value, and from then on it is both evaluated and pending until `remove_unfinished` — a further `tell(p, ·)` is
-ignored because `p` is known, so it does not even discard `p` from the pending set. -/
-theorem lnd_remarked_point_stays_pending (env : Env α) {s s1 s' : State α} {p : Pt} (op : Op α)
-    (hin : env.inside p = true) (hd : p ∈ s.data) (hm : Marks env s p op) (h : step env s op = .ok s1)
-    (ops : List (Op α)) (hk : ∀ o ∈ ops, o ≠ .removeUnfinished) (h' : run env s1 ops = .ok s') :
+/-- A.2: `tell_pending` of a point that has a value is a no-op — for every state, every environment, every hint (the
+repair itself; as `Learner1D.tell_pending`, C10 `l1d_tellPending_known_noop`). -/
+theorem lnd_tellPending_known_noop (env : Env α) (s : State α) (p : Pt) (hint : Option Simplex) (h : p ∈ s.data) :
+    tellPending env s p hint = .ok s :=
+  tellPending_known env s p hint (List.contains_iff_mem.2 h)
+
+/-- A.2: … and a committing `ask` that returns a point with a value does not mark it either: its membership in the
+pending set is what it was. -/
+theorem lnd_ask_known_not_marked (env : Env α) {s s' : State α} {rs : List (Pt × α)} (n : Nat) (commit : Bool)
+    (h : ask env s n commit = .ok (rs, s')) (p : Pt) (hd : p ∈ s.data) : p ∈ s'.pending ↔ p ∈ s.pending :=
+  ask_returned_known env n commit h p hd
+
+/-- What is left of the former proviso.  Before the repair an operation that marked a known in-domain point
+(`tell_pending(p)`, a committing `ask` returning `p`) made it pending, and it then stayed evaluated AND pending until
+`remove_unfinished`.  Since the repair no operation produces such a point (`lnd_data_pending_disjoint`); the
+persistence half is still a fact about the model — about a state that does not come from `init`, e.g. a learner
+restored from a file written before the repair: a point that is both evaluated and pending stays both until
+`remove_unfinished`, because a further `tell(p, ·)` is ignored (`p` is known), so it does not even discard `p` from the
+pending set. -/
+theorem lnd_remarked_point_stays_pending (env : Env α) {s s' : State α} {p : Pt}
+    (hd : p ∈ s.data) (hp : p ∈ s.pending)
+    (ops : List (Op α)) (hk : ∀ o ∈ ops, o ≠ .removeUnfinished) (h' : run env s ops = .ok s') :
     p ∈ s'.data ∧ p ∈ s'.pending :=
-  run_known_pending env ops hk (mem_data_step env op hd h) (step_marks_pending env op hin hm h) h'
+  run_known_pending env ops hk hd hp h'
 
-/-- counterexample to the unconditional invariant (and to `p ∉ (tell p).pending` for a known `p`):
-`tell(0); tell_pending(0); tell(0)` leaves 0 evaluated AND pending -/
+/-- the former counterexample to the unconditional invariant, turned around: `tell(0); tell_pending(0); tell(0)` leaves
+0 evaluated and NOT pending (the `tell_pending(0)` in the middle is a no-op) -/
 example : ∃ s, run exEnv (init exEnv) [.tell 0 1 1, .tellPending 0, .tell 0 1 1] = .ok s ∧
-    0 ∈ s.data ∧ 0 ∈ s.pending := ⟨_, rfl, by decide, by decide⟩
+    0 ∈ s.data ∧ 0 ∉ s.pending ∧ run exEnv (init exEnv) [.tell 0 1 1] = .ok s :=
+  ⟨_, rfl, by decide, by decide, rfl⟩
 
-/-- counterexample by `ask` alone: the random bootstrap point (oracle `randPt = 9`) was told before; `ask` hands it
-out again and marks it pending -/
-example : ∃ s, run exEnv (init exEnv) [.tell 9 1 1, .ask 5 true] = .ok s ∧
-    9 ∈ s.data ∧ 9 ∈ s.pending := ⟨_, rfl, by decide, by decide⟩
+/-- the former counterexample by `ask` alone, turned around: the random bootstrap point (oracle `randPt = 9`) was told
+before; `ask(5)` serves the four corners and then hands 9 out again — and does NOT mark it pending -/
+example : ∃ s1 rs s, run exEnv (init exEnv) [.tell 9 1 1] = .ok s1 ∧ ask exEnv s1 5 true = .ok (rs, s) ∧
+    run exEnv (init exEnv) [.tell 9 1 1, .ask 5 true] = .ok s ∧
+    rs.map (·.1) = [0, 1, 2, 3, 9] ∧ 9 ∈ s.data ∧ 9 ∉ s.pending ∧ s.pending = [0, 1, 2, 3] :=
+  ⟨_, _, _, rfl, rfl, rfl, rfl, by decide, by decide, rfl⟩
 
-/-- non-vacuity of `NoRemark`: four tells, an `ask`, a `tell` of the point asked, a discard -/
-example : NoRemark exEnv (init exEnv)
-    [.tell 0 1 1, .tell 1 2 2, .tell 2 5 5, .tell 3 1 1, .ask 1 true, .tell 4 1 1, .removeUnfinished] :=
-  noRemark_of_B _ _ _ (by decide)
+/-- the invariant on a history with explicit re-marks and an `ask`: four tells, `tell_pending` of a known point, an
+`ask`, `tell_pending` of the point asked and of another known point -/
+example : ∃ s, run exEnv (init exEnv)
+    [.tell 0 1 1, .tell 1 2 2, .tell 2 5 5, .tell 3 1 1, .tellPending 2, .ask 1 true, .tellPending 4, .tellPending 0,
+      .loss] = .ok s ∧ s.data = [0, 1, 2, 3] ∧ s.pending = [4] ∧ ∀ p ∈ s.data, p ∉ s.pending := by
+  refine ⟨_, rfl, rfl, rfl, ?_⟩
+  exact lnd_data_pending_disjoint exEnv [.tell 0 1 1, .tell 1 2 2, .tell 2 5 5, .tell 3 1 1, .tellPending 2,
+    .ask 1 true, .tellPending 4, .tellPending 0, .loss] rfl
 
-/-- A.3 ASKED ⇒ PENDING.  Every in-domain point returned by a committing `ask` is pending afterwards, and stays
-pending along every later history that contains no `tell` of it and no `remove_unfinished`.  (`tell_pending` ignores a
-point outside the domain, hence the hypothesis; the corners of the domain and the accepted random points are inside
-in the real code, a point chosen in a simplex is inside up to rounding.) -/
+/-- A.3 ASKED ⇒ PENDING.  Every in-domain point WITHOUT A VALUE returned by a committing `ask` is pending afterwards,
+and stays pending along every later history that contains no `tell` of it and no `remove_unfinished`.  (`tell_pending`
+ignores a point outside the domain and — since the repair — a point that has a value, hence the two hypotheses; the
+corners of the domain and the accepted random points are inside in the real code, a point chosen in a simplex is inside
+up to rounding; the missing corners have no value by construction, a random point or a chosen point has none unless the
+oracle repeats a told point — `ChooseFresh` of C04.) -/
 theorem lnd_asked_pending_until_told (env : Env α) {s s' : State α} {rs : List (Pt × α)} (n : Nat)
-    (h : ask env s n true = .ok (rs, s')) (p : Pt) (hp : p ∈ rs.map (·.1)) (hin : env.inside p = true) :
+    (h : ask env s n true = .ok (rs, s')) (p : Pt) (hp : p ∈ rs.map (·.1)) (hnd : p ∉ s.data)
+    (hin : env.inside p = true) :
     p ∈ s'.pending ∧
     ∀ (ops : List (Op α)) (s'' : State α), (∀ op ∈ ops, KeepsPending p op) → run env s' ops = .ok s'' →
       p ∈ s''.pending := by
-  have hp' : p ∈ s'.pending := by
-    rw [(ask_dp env n true h).2]
-    simp only [if_true]
-    exact (mem_foldl_markPending env _ _ _).2 (Or.inr ⟨hp, hin⟩)
+  have hp' : p ∈ s'.pending := ask_returned_pending env n h p hp hnd hin
   exact ⟨hp', fun ops s'' hk hr => run_keeps_pending env ops hk hp' hr⟩
+
+/-- the hypothesis "`p` has no value" of A.3 is needed since the repair: the told random bootstrap point 9 is returned
+by `ask(5)`, lies in the domain, and is not pending afterwards -/
+example : ∃ s rs s', run exEnv (init exEnv) [.tell 9 1 1] = .ok s ∧ ask exEnv s 5 true = .ok (rs, s') ∧
+    9 ∈ rs.map (·.1) ∧ exEnv.inside 9 = true ∧ 9 ∈ s.data ∧ 9 ∉ s'.pending :=
+  ⟨_, _, _, rfl, rfl, by decide, rfl, by decide, by decide⟩
 
 /-- the hypothesis `inside` of A.3 is needed: with the corner `0` outside the domain (`Ex.lndEnvOut`) the first `ask`
 returns it (`_bounds_points` are served first) and `tell_pending` ignores it -/
@@ -105,12 +142,12 @@ point 4 chosen in the worst simplex, which is then pending -/
 example : ∃ s rs s', run exEnv (init exEnv) exOps0 = .ok s ∧ ask exEnv s 1 true = .ok (rs, s') ∧
     rs.map (·.1) = [4] ∧ exEnv.inside 4 = true ∧ s'.pending = [4] := ⟨_, _, _, rfl, rfl, rfl, rfl, rfl⟩
 
-/-- A.3: the exact pending set after an `ask`: the old one plus the returned in-domain points (in order, each once);
-a non-committing `ask` changes neither `data` nor the pending set. -/
+/-- A.3: the exact pending set after an `ask`: the old one plus the returned in-domain points that have no value (in
+order, each once); a non-committing `ask` changes neither `data` nor the pending set. -/
 theorem lnd_ask_pending_exact (env : Env α) {s s' : State α} {rs : List (Pt × α)} (n : Nat) (commit : Bool)
     (h : ask env s n commit = .ok (rs, s')) :
     s'.data = s.data ∧
-    s'.pending = (if commit then (rs.map (·.1)).foldl (markPending env) s.pending else s.pending) :=
+    s'.pending = (if commit then (rs.map (·.1)).foldl (markPending env s.data) s.pending else s.pending) :=
   ask_dp env n commit h
 
 /-- A.4 RE-TELL.  Telling a known point again — with the same or a different value — changes NOTHING: the state
